@@ -75,6 +75,8 @@ type tWorld struct {
 	faulty      bool
 	rate, burst int
 	insts       []*tInst
+	short       bool // n == 1 goes through Allow() / AllowCtx()
+	shortCtx    bool
 	cur         map[int]*tCall
 	instOfTask  map[int]*tInst
 	states      []bstate
@@ -546,6 +548,10 @@ func tokenRun(r *simrt.Run, tier string, faulty bool) {
 		w.burst = w.rate
 	}
 	nInst := t.Range(1, 4)
+	// single-token requests through the shorthands Allow() / AllowCtx(ctx) in a third of the runs
+	if t.Chance(1, 3) {
+		w.short, w.shortCtx = true, t.Bool()
+	}
 	maxSteps := 6
 	if tier == "thorough" {
 		maxSteps = 14
@@ -611,11 +617,25 @@ func tokenRun(r *simrt.Run, tier string, faulty bool) {
 		c.start = c.now
 		w.cur[tid] = c
 		w.instOfTask[tid] = in
-		if cancelled {
+		switch {
+		case cancelled:
 			ctx, cancel := context.WithCancel(context.Background())
 			cancel()
-			c.res = in.lim.AllowNCtx(ctx, c.now, n)
-		} else {
+			if n == 1 && w.short {
+				c.res = in.lim.AllowCtx(ctx)
+			} else {
+				c.res = in.lim.AllowNCtx(ctx, c.now, n)
+			}
+		case n == 1 && w.short:
+			// the shorthands read the clock themselves: time.Now() at the call, i.e. c.now
+			// (no scheduling point lies between the harness' reading and theirs)
+			w.r.Probe("token-allow-shorthand")
+			if w.shortCtx {
+				c.res = in.lim.AllowCtx(context.Background())
+			} else {
+				c.res = in.lim.Allow()
+			}
+		default:
 			c.res = in.lim.AllowN(c.now, n)
 		}
 		delete(w.cur, tid)
